@@ -506,10 +506,10 @@ pub(crate) struct WritersHandle {
 impl WritersHandle {
     fn set_new_spec(&self, new_spec: LogSpecification) -> Result<(), FlexiLoggerError> {
         let max_level = new_spec.max_level();
-        self.spec
-            .write()
-            .map_err(|_| FlexiLoggerError::Poison)?
-            .update_from(new_spec);
+        let mut spec = self.spec.write().map_err(|_| FlexiLoggerError::Poison)?;
+        spec.update_from(new_spec);
+        // keep the lock until the global max level is updated as well, so that
+        // concurrent changes cannot end up with the spec of one and the max level of the other
         self.reconfigure(max_level);
         Ok(())
     }
